@@ -28,6 +28,8 @@ func c14Doc(security bool) J {
 		"/k3/{sub}": J{"get": J{"operationId": "Op6", "parameters": []interface{}{J{"name": "sub", "in": "path", "required": true, "schema": J{"type": "string"}}}, "responses": ok}},
 	}
 	paths["/k0"].(J)["post"] = J{"operationId": "Op5", "responses": ok}
+	// an operation of the OPTIONS method is an operation like any other
+	paths["/k2"].(J)["options"] = J{"operationId": "Op7", "responses": ok}
 	doc := J{"openapi": "3.0.3", "info": J{"title": "t", "version": "1"}, "paths": paths}
 	if security {
 		paths["/k4"] = J{"get": J{"operationId": "Op4", "security": []interface{}{J{"ApiKey": []interface{}{"r"}}}, "responses": ok}}
@@ -44,6 +46,7 @@ var c14Reqs = []J{
 	{"method": "GET", "url": "http://h/k4"},
 	{"method": "POST", "url": "http://h/k0"},
 	{"method": "GET", "url": "http://h/k3/below"},
+	{"method": "OPTIONS", "url": "http://h/k2"},
 }
 
 type c14Row struct {
@@ -189,7 +192,14 @@ func c14Measure(ctx *Ctx) ([]c14Row, []string, error) {
 					for _, sc := range scombos {
 						// strict servers are built through both constructors in turn (NewStrictHandler / NewStrictHandlerWithOptions)
 						withOptions := k.strict && (op+n+sc[0])%2 == 1
-						resp, err := k.p.Call(J{"do": "serve", "req": c14Reqs[op], "opt": J{"mw": n, "stop": stop, "smw": sc[0], "sstop": sc[1], "sel": 0, "status": 200, "errh": withOptions,
+						// every third cell is served under a base URL: the middlewares belong to the operations wherever they are mounted
+						req, base := c14Reqs[op], ""
+						if (op+n+stop+sc[0]+4)%3 == 0 {
+							base = "/api"
+							req = copyJ(req)
+							req["url"] = strings.Replace(req["url"].(string), "http://h/", "http://h/api/", 1)
+						}
+						resp, err := k.p.Call(J{"do": "serve", "req": req, "opt": J{"mw": n, "stop": stop, "smw": sc[0], "sstop": sc[1], "sel": 0, "status": 200, "errh": withOptions, "base": base,
 							// every other cell is observed on a server that has served the same request before: the order is per request, nothing carries over
 							"warm": (op + n + sc[0]) % 2}})
 						if err != nil {
@@ -284,7 +294,7 @@ func genC14(ctx *Ctx) error {
 }
 
 func runC14(ctx *Ctx) error {
-	ctx.Res.Rule = "exhaustive table: framework(7) x strict(2) x first-to-last flag (chi/gorilla/std-http) x 0..3 per-operation middlewares x every short-circuit position x strict middleware count 0..2 x strict short-circuit position x 7 operation kinds (none, path, query, body, security, a second method of a path, a path below another operation's path); one request per cell, trace of recording middlewares and stub; non-trivial = at least one middleware"
+	ctx.Res.Rule = "exhaustive table: framework(7) x strict(2) x first-to-last flag (chi/gorilla/std-http) x 0..3 per-operation middlewares x every short-circuit position x strict middleware count 0..2 x strict short-circuit position x 8 operation kinds (none, path, query, body, security, a second method of a path, a path below another operation's path, an OPTIONS operation), every third cell mounted under a base URL; one request per cell, trace of recording middlewares and stub; non-trivial = at least one middleware"
 	rows, notes, err := c14Measure(ctx)
 	if err != nil {
 		return err
